@@ -289,10 +289,13 @@ def main(argv):
     ck.assumptions = ["process environment fixed (no OCCA_CXX/OCCA_CXXFLAGS/OCCA_LDFLAGS/… changes between the builds)",
                       "hash collisions of occa::hash itself are outside the property (stated as hypothesis / reduction)",
                       "json dump injective on the values in play (property C24)"]
+    T = {"start": time.time()}
     ck.translate(["gen_hash", "gen_cachekey"])
     ck.prove("C06")
+    T["proved"] = time.time()
     hb = ck.harness("h_cachekey")
     db = ck.driver("drv_cache")
+    T["built"] = time.time()
     if not hb or not db:
         ck.finish(META["level_text"])
     lanes = device_lanes(ck, hb, fresh_dir("c06-dev-%d" % ck.seed))
@@ -320,6 +323,7 @@ def main(argv):
         ck.cov["counters"]["configuration_pairs_compared_by_the_collision_oracle"] = pairs
         ck.cov["evaluations"] = sum(len(h) - 1 for h in hs)
 
+    T["keys"] = time.time()
     # identical configurations in separate processes resolve to the same key
     if not rp:
         probe = [l for h in hs[10:40] for l in h][:120]
@@ -350,6 +354,9 @@ def main(argv):
                 res = fu.result()
                 builds += len(res)
                 wrong += judge(ck, procs, res)
+        T["builds"] = time.time()
+        ck.cov["counters"]["phase_seconds"] = {"translate+prove": round(T["proved"] - T["start"]), "harness+driver build": round(T["built"] - T["proved"]),
+                                               "key correspondence": round(T["keys"] - T["built"]), "two-process keys + real builds": round(T["builds"] - T["keys"])}
         ck.cov["counters"]["real_builds_in_separate_processes"] = builds
         ck.cov["counters"]["real_builds_wrong_value"] = wrong
         ck.cov["evaluations"] += builds
